@@ -1,9 +1,10 @@
 SPEC = {
     "id": "C05",
     "level": "proof",
-    "theorem_modules": ["GluonModel.Theorems.C05"],
+    "theorem_modules": ["GluonModel.Theorems.C05", "GluonModel.Theorems.SysC05"],
     "correspondences": [
         {"dialect": "flush", "quick_n": 6000, "thorough_n": 200000, "judge": "judge-c05-flush"},
+        {"dialect": "sys", "quick_n": 250, "thorough_n": 5000, "judge": "judge-c05-sys"},
     ],
     "oracles": [
         {"name": "hist", "quick_args": ["-props", "C05", "-n", "25", "-steps", "40"],
@@ -16,6 +17,7 @@ SPEC = {
         "verif hooks internal/state/verif_export.go (VerifFlush builds the State the real flushResponses runs on)",
     ],
     "assumptions": [
+        "system level (Theorems/SysC05.lean over GluonModel/Model/System.lean, tied by the `sys` correspondence dialect: whole multi-session histories on the real server, [EXPUNGEISSUED] compared as the pseudo-response I): no_expunge_without_permission / no_expunge_when_refused / removals_held_back_in_order hold in every state; removal_reaches_queue_partial (the removal of a message a session knows, also through a held-back EXISTS, is queued for it, i.e. not filtered out) and next_permitting_command_announces carry the NAMED hypothesis NoOvertake. judge-c05-sys evaluates on the implementation's answers: no EXPUNGE in a non-permitting answer (every history); inside NoOvertake also: never two instances of one message shown at a time, [EXPUNGEISSUED] iff the next permitting command announces a removal, and after quiescence + NOOP the session shows exactly the mailbox's UIDs (removal-never-announced / addition-never-announced); outside NoOvertake it answers ok outside-NoOvertake (those histories are reported by the C01 / C02 judges as K-own-update-overtakes-foreign)",
         "a session handler reaches Mailbox.Flush only through session.flush(ctx, mailbox, <literal>, ch) (any other route is emitted as an unknown site and fails flush_table)",
         "wire rendering of responses (String()) is not modelled; the wire-level oracle covers it",
     ],
